@@ -1,6 +1,8 @@
 // ---------------------------------------------------------------------------------------------
 // specs/parse_slice.rs — Python's subscript grammar over a token sequence (C05, no repository code):
 //     subscript ::= expression | [lower] ":" [upper] [ ":" [stride] ]
+// where two adjacent colons (an omitted upper bound) reach the parser as ONE token `::` (the lexer's
+// longest match), which therefore stands for `":" ":"`.
 // `expr_at(ts, p)` is the expression that starts at token p, `expr_end(ts, p)` the position after it and
 // `expr_ok(ts, p)` whether one parses there (the recursive expression parser, uninterpreted).
 // ---------------------------------------------------------------------------------------------
@@ -20,38 +22,49 @@ pub open spec fn variant_ordinal(k: TokenKind) -> u8 {
     }
 }
 pub open spec fn colon(ts: Seq<TokenKind>, p: int) -> bool { is_punct(ts[p], PunctuationId::Colon) }
+pub open spec fn colon2(ts: Seq<TokenKind>, p: int) -> bool { is_punct(ts[p], PunctuationId::ColonColon) }
 pub open spec fn rbracket(ts: Seq<TokenKind>, p: int) -> bool { is_punct(ts[p], PunctuationId::RBracket) }
 
-/// after the first ":" at position p: ( upper, stride, position after the subscript )
+/// after the first ":" (or the "::") at position p: ( upper, stride, position after the subscript )
 pub open spec fn slice_rest(ts: Seq<TokenKind>, p: int) -> (Option<Spanned<Expr>>, Option<Spanned<Expr>>, int) {
-    let q1 = p + 1;
-    let (upper, q2) = if !rbracket(ts, q1) && !colon(ts, q1) { (Some(expr_at(ts, q1)), expr_end(ts, q1)) } else { (None::<Spanned<Expr>>, q1) };
-    if colon(ts, q2) {
-        let q3 = q2 + 1;
-        if !rbracket(ts, q3) { (upper, Some(expr_at(ts, q3)), expr_end(ts, q3)) } else { (upper, None::<Spanned<Expr>>, q3) }
+    if colon2(ts, p) {
+        // "::" = ":" ":" with the upper bound omitted
+        let q3 = p + 1;
+        if !rbracket(ts, q3) { (None::<Spanned<Expr>>, Some(expr_at(ts, q3)), expr_end(ts, q3)) } else { (None::<Spanned<Expr>>, None::<Spanned<Expr>>, q3) }
     } else {
-        (upper, None::<Spanned<Expr>>, q2)
+        let q1 = p + 1;
+        let (upper, q2) = if !rbracket(ts, q1) && !colon(ts, q1) { (Some(expr_at(ts, q1)), expr_end(ts, q1)) } else { (None::<Spanned<Expr>>, q1) };
+        if colon(ts, q2) {
+            let q3 = q2 + 1;
+            if !rbracket(ts, q3) { (upper, Some(expr_at(ts, q3)), expr_end(ts, q3)) } else { (upper, None::<Spanned<Expr>>, q3) }
+        } else {
+            (upper, None::<Spanned<Expr>>, q2)
+        }
     }
 }
 /// ... and whether every expression in it parses
 pub open spec fn slice_rest_ok(ts: Seq<TokenKind>, p: int) -> bool {
-    let q1 = p + 1;
-    let has_upper = !rbracket(ts, q1) && !colon(ts, q1);
-    let q2 = if has_upper { expr_end(ts, q1) } else { q1 };
-    (has_upper ==> expr_ok(ts, q1))
-    && ((colon(ts, q2) && !rbracket(ts, q2 + 1)) ==> expr_ok(ts, q2 + 1))
+    if colon2(ts, p) {
+        !rbracket(ts, p + 1) ==> expr_ok(ts, p + 1)
+    } else {
+        let q1 = p + 1;
+        let has_upper = !rbracket(ts, q1) && !colon(ts, q1);
+        let q2 = if has_upper { expr_end(ts, q1) } else { q1 };
+        (has_upper ==> expr_ok(ts, q1))
+        && ((colon(ts, q2) && !rbracket(ts, q2 + 1)) ==> expr_ok(ts, q2 + 1))
+    }
 }
 
 pub enum Subscript { Index(Spanned<Expr>), Slice(Option<Spanned<Expr>>, Option<Spanned<Expr>>, Option<Spanned<Expr>>) }
 
 /// the subscript that starts at position p (just after "["), and the position after it
 pub open spec fn subscript(ts: Seq<TokenKind>, p: int) -> (Subscript, int) {
-    if colon(ts, p) {
+    if colon(ts, p) || colon2(ts, p) {
         let (u, s, q) = slice_rest(ts, p);
         (Subscript::Slice(None, u, s), q)
     } else {
         let q = expr_end(ts, p);
-        if colon(ts, q) {
+        if colon(ts, q) || colon2(ts, q) {
             let (u, s, q2) = slice_rest(ts, q);
             (Subscript::Slice(Some(expr_at(ts, p)), u, s), q2)
         } else {
@@ -60,9 +73,9 @@ pub open spec fn subscript(ts: Seq<TokenKind>, p: int) -> (Subscript, int) {
     }
 }
 pub open spec fn subscript_ok(ts: Seq<TokenKind>, p: int) -> bool {
-    if colon(ts, p) { slice_rest_ok(ts, p) }
+    if colon(ts, p) || colon2(ts, p) { slice_rest_ok(ts, p) }
     else if rbracket(ts, p) { false }
-    else { expr_ok(ts, p) && (colon(ts, expr_end(ts, p)) ==> slice_rest_ok(ts, expr_end(ts, p))) }
+    else { expr_ok(ts, p) && ((colon(ts, expr_end(ts, p)) || colon2(ts, expr_end(ts, p))) ==> slice_rest_ok(ts, expr_end(ts, p))) }
 }
 
 pub open spec fn unbox_opt(o: Option<Box<Spanned<Expr>>>) -> Option<Spanned<Expr>> {
